@@ -1,6 +1,8 @@
 package eng
 
 import (
+	"fmt"
+	"sync"
 	"unsafe"
 
 	"arkverif/comps"
@@ -104,6 +106,25 @@ func buildRels(w *ecs.World, args []RelArg) []ecs.Relation {
 	if len(args) == 0 {
 		return nil
 	}
+	// A caller may keep its []Relation and pass it again, to other calls, other worlds and from other goroutines: the
+	// library only reads it. Equal argument lists therefore share one slice for the life of the process (RelID values
+	// carry a world-specific ID and are not shared).
+	key := ""
+	for _, a := range args {
+		if a.Style == 2 {
+			key = ""
+			break
+		}
+		key += fmt.Sprint(a.Pos, a.Comp, a.Target, a.Style, ";")
+	}
+	if key != "" {
+		relCacheMu.Lock()
+		cached, ok := relCache[key]
+		relCacheMu.Unlock()
+		if ok {
+			return cached
+		}
+	}
 	out := make([]ecs.Relation, len(args))
 	for i, a := range args {
 		switch a.Style {
@@ -115,8 +136,21 @@ func buildRels(w *ecs.World, args []RelArg) []ecs.Relation {
 			out[i] = ecs.RelID(comps.Register(w, a.Comp), a.Target)
 		}
 	}
+	if key != "" {
+		relCacheMu.Lock()
+		if len(relCache) > 20000 {
+			relCache = map[string][]ecs.Relation{}
+		}
+		relCache[key] = out
+		relCacheMu.Unlock()
+	}
 	return out
 }
+
+var (
+	relCache   = map[string][]ecs.Relation{}
+	relCacheMu sync.Mutex
+)
 
 func targetsOf(args []RelArg) []ecs.Entity {
 	if len(args) == 0 {
